@@ -7,7 +7,7 @@ from props import querycommon as qc
 
 
 RG, RG_CFG = "RootGatherTrace", "RootGatherTrace.cfg"
-RG_ACTIONS = ["TReset", "TPlan", "TSend", "TAnswer", "TResult"]
+RG_ACTIONS = ["TReset", "TPlan", "TSend", "TAnswerBegin", "TInternal", "TAnswerEnd", "TResult"]
 
 
 def _rg_describe(sig, bad, rel, info):
@@ -19,30 +19,37 @@ def _rg_describe(sig, bad, rel, info):
         return sig
     if ev.get("ev") != "Result":
         return sig
-    planned, answered = 0, 0
+    planned, begun, ended = 0, 0, 0
     for ln in bad[: rel - 1]:
         d = json.loads(ln)
         if d.get("ev") == "Plan":
             planned = len(d["targets"])
-        elif d.get("ev") == "Answer":
-            answered += 1
+        elif d.get("ev") == "AnswerBegin":
+            begun += 1
+        elif d.get("ev") == "AnswerEnd":
+            ended += 1
     what = "ok" if ev.get("ok") else str(ev.get("err")).split(":")[0]
-    return "%s:%s:%s" % (sig, what, "all-answered" if answered >= planned else "answers-outstanding")
+    state = "answers-outstanding" if begun < planned else "answer-in-progress" if ended < begun else "all-answered"
+    return "%s:%s:%s" % (sig, what, state)
 
 
 def root_gather(ctx, thorough):
     """The root's gathering of the leaf answers (module RootGather): real MetricDataSearch / pipeline / RootMetricContext /
     task manager, one data set split over 1..3 leaf targets in every way, every answer delivered at a scripted point
-    (inside its own send, after all sends in a scripted order, concurrently, never)."""
-    # ---- leg M: every target set x answer kinds x interleaving of sends and answers; counting the expected answers at
-    # send time instead of plan time must break "a completed query has heard every planned target"
+    (inside its own send, after all sends in a scripted order, concurrently, never; while the handler of another
+    answer is inside its payload decode)."""
+    # ---- leg M: every target set x answer kinds x interleaving of sends and the two steps of every answer; counting the
+    # expected answers at send time instead of plan time must break "a completed query has heard every planned target",
+    # counting an answer and merging its data in two critical sections must break "the result holds every counted answer"
     ctx.model_check("MCRootGather", "MCRootGather.cfg", timeout=600, coverage=thorough)
     ctx.model_check("MCRootGather", "MCRootGather_dev_sendcount.cfg", expect="violation", timeout=300)
+    ctx.model_check("MCRootGather", "MCRootGather_dev_countmerge.cfg", expect="violation", timeout=300)
     # ---- leg T
     tr = os.path.join(ctx.scratch, "queryroot.ndjson")
     scr = os.path.join(ctx.scratch, "scr-queryroot")
     os.makedirs(scr, exist_ok=True)
-    args = ["--points", 4, "--sets", 3, "--sampled", 2, "--all"] if thorough else ["--points", 3, "--sets", 2, "--sampled", 1]
+    args = ["--points", 4, "--sets", 3, "--sampled", 2, "--all", "--overlaps", 4] if thorough else \
+        ["--points", 3, "--sets", 2, "--sampled", 1, "--overlaps", 2]
     summ, rc, out = ctx.run_vdrive(["queryroot", "--seed", ctx.seed, "--out", tr, "--scratch", scr] + args, timeout=3000)
     for u in summ["unresolved"]:
         raise vcore.Unresolved("queryroot driver: %s" % u)
@@ -62,54 +69,104 @@ def root_gather(ctx, thorough):
         "schedule_shapes": len(ex["schedules"]), "first_answer_before_next_send": first_inline,
         "outcomes": outcomes, "answers_after_completion": ex["answers_after_completion"],
         "request_context_ended_while_waiting": ex["request_context_ended"],
+        "overlaps": ex.get("overlaps"), "slow_answer_bytes": ex.get("ballast_bytes"), "slow_answer_decode_ms": ex.get("ballast_decode_ms"),
     }
     ctx.log("root gather: %d runs (%d accepted), %d schedule shapes, %d with an answer handled before the next send, outcomes %s" % (
         total, ok, len(ex["schedules"]), first_inline, outcomes))
     if total < 150 or first_inline < 20 or outcomes.get("ok", 0) < 80 or not outcomes.get("timeout") or not outcomes.get("error") \
             or not outcomes.get("notfound"):
         raise vcore.Unresolved("root gather: too few runs / schedules / outcomes (%s)" % ctx.extra["root_gather"])
-    # binding self-tests on an accepted run with >= 2 leaves holding data, the last answer late
+    # the overlap runs count only if the window was entered: the handler of the slow answer was seen inside the payload
+    # decode AND the other answer / the completion of the pipeline came while it had not returned
+    ov = ex.get("overlaps") or {}
+    ctx.log("root gather overlaps (handler inside the payload decode x another answer / the completion): %s, slow answer %s bytes ~%s ms" % (
+        ov, ex.get("ballast_bytes"), ex.get("ballast_decode_ms")))
+    for kind in ("answer", "complete"):
+        if not ov.get(kind, {}).get("window_hit"):
+            raise vcore.Unresolved("root gather: no overlap run of kind '%s' entered the window (%s)" % (kind, ov))
+    # binding self-tests on an accepted overlap run (2 leaves holding data, the handler of the second answer entered while
+    # the first had not returned)
     acc = getattr(ctx, "accepted_path", None)
     src = None
+
+    def evs_of(lines):
+        return [json.loads(x) for x in lines]
+
+    def idx(evs, name, nth=0, last=False):
+        hits = [i for i, e in enumerate(evs) if e.get("ev") == name]
+        if not hits:
+            return None
+        return hits[-1] if last else hits[nth]
+
     if acc:
         for t in vcore.split_traces(vcore.read_lines(acc)):
-            evs = [json.loads(x) for x in t]
-            if evs[-1].get("ev") == "Result" and evs[-1].get("ok") and len(evs[-1]["cells"]) >= 1 and evs[-2].get("ev") == "Answer" \
-                    and sum(1 for k in evs[0]["kinds"].values() if k == "data") >= 2 and sum(1 for e in evs if e.get("ev") == "Answer") >= 2:
-                src = os.path.join(ctx.scratch, "rg-selftest.ndjson")
-                with open(src, "w") as f:
-                    f.write("".join(t))
-                break
+            evs = evs_of(t)
+            r = idx(evs, "Result")
+            if r is None or not evs[r].get("ok") or len(evs[r]["cells"]) < 2 or evs[0].get("sched", {}).get("overlap") != "answer":
+                continue
+            if len(evs[0]["kinds"]) != 2:
+                continue
+            b1, b2, e1 = idx(evs, "AnswerBegin", 0), idx(evs, "AnswerBegin", 1), idx(evs, "AnswerEnd", 0)
+            if None in (b1, b2, e1) or not b1 < b2 < e1 < r:
+                continue
+            src = os.path.join(ctx.scratch, "rg-selftest.ndjson")
+            with open(src, "w") as f:
+                f.write("".join(t))
+            break
     if not src:
-        raise vcore.Unresolved("root gather: no accepted run for the binding self-tests")
+        raise vcore.Unresolved("root gather: no accepted overlap run for the binding self-tests")
+
+    def move(lines, i, j):
+        """line i goes in front of line j (positions of the original list)"""
+        out = [ln for k, ln in enumerate(lines) if k != i]
+        out.insert(j if j < i else j - 1, lines[i])
+        return out
 
     def early_result(lines):
-        return lines[:-2] + [lines[-1], lines[-2]]
+        evs = evs_of(lines)
+        return move(lines, idx(evs, "Result"), idx(evs, "AnswerBegin", last=True))
+
+    def with_result(lines, fn):
+        evs = evs_of(lines)
+        r = idx(evs, "Result")
+        fn(evs[r])
+        return lines[:r] + [json.dumps(evs[r], separators=(",", ":")) + "\n"] + lines[r + 1:]
 
     def other_value(lines):
-        d = json.loads(lines[-1])
-        d["cells"][0][2] += 1000
-        return lines[:-1] + [json.dumps(d, separators=(",", ":")) + "\n"]
+        def fn(d):
+            d["cells"][0][2] += 1000
+        return with_result(lines, fn)
 
-    def lost_cell(lines):
-        d = json.loads(lines[-1])
-        d["cells"].pop()
-        d["series"] = len(set(c[0] for c in d["cells"]))
-        return lines[:-1] + [json.dumps(d, separators=(",", ":")) + "\n"]
+    def lost_answer(lines):
+        # what the seeded design produces: the result while the first handler is still decoding, without its cells
+        evs = evs_of(lines)
+        first = evs[idx(evs, "AnswerBegin", 0)]["t"]
+        mine = set((p[0], p[1]) for p in evs[0]["pts"][first])
+        theirs = set((p[0], p[1]) for t, ps in evs[0]["pts"].items() if t != first for p in ps)
+
+        def fn(d):
+            d["cells"] = [c for c in d["cells"] if (c[0], c[1]) not in mine - theirs]
+            d["series"] = len(set(c[0] for c in d["cells"]))
+        out = with_result(lines, fn)
+        evs = evs_of(out)
+        ends = [i for i, e in enumerate(evs) if e.get("ev") == "AnswerEnd" and e["t"] == first]
+        return out[:ends[0]] + out[ends[0] + 1:] + [out[ends[0]]]
 
     def unsent_answer(lines):
-        out, moved = [], None
-        for ln in lines:
-            if moved is None and '"ev":"Send"' in ln:
-                moved = ln
-                continue
-            out.append(ln)
-        return out[:-1] + [moved, out[-1]] if moved else None
+        evs = evs_of(lines)
+        return move(lines, idx(evs, "Send", 0), idx(evs, "Result"))
+
+    def end_before_begin(lines):
+        evs = evs_of(lines)
+        b = idx(evs, "AnswerBegin", last=True)
+        ends = [i for i, e in enumerate(evs) if e.get("ev") == "AnswerEnd" and e["t"] == evs[b]["t"]]
+        return move(lines, ends[0], b)
 
     for mut, what in ((early_result, "the result is returned before the last answer is handled"),
                       (other_value, "a result value + 1000"),
-                      (lost_cell, "a cell of the merge is missing"),
-                      (unsent_answer, "an answer is handled before its request was sent")):
+                      (lost_answer, "the result is built while the first handler has not returned, without that answer's cells"),
+                      (unsent_answer, "an answer is handled before its request was sent"),
+                      (end_before_begin, "a handler returns before it was entered")):
         vcore.corrupt_selftest(ctx, RG, RG_CFG, src, mut, what)
     # no vacuous binding: every trace action taken
     res = ctx.tlc(RG, RG_CFG, workers=1, files={"trace.ndjson": src}, coverage=True, count=False)
@@ -130,6 +187,14 @@ def root_gather(ctx, thorough):
         "the series by the harness (a leaf resolves it through its meta database); one field of type sum / min / max, <= 2 groups",
         "root gather leg: 'the root waits' is observed as the query goroutine parked in the select of MetricContext.waitResponse (goroutine dump), "
         "late answers are delivered only then; a lost answer ends with the request context being cancelled while the root waits",
+        "root gather leg, overlap runs: no hook inside the handler -- an answer is made slow to decode (its payload is followed by megabytes of "
+        "protobuf fields no lindb message declares; sized at start so that decoding takes ~400 ms), 'its handler is inside the payload decode' "
+        "is a goroutine dump showing TimeSeriesList.Unmarshal below a frame of package query/context; the other answers / the return of the last "
+        "SendRequest are released then.  A run counts (window_hit) only if that was seen AND the other party acted before the slow handler "
+        "returned (AnswerBegin logged before the slow AnswerEnd; the pipeline's Complete / the parked root / the returned query seen in a dump "
+        "before it); without a window hit of both kinds the check is unresolved, not passed",
+        "root gather leg: the two steps of a handler (AnswerCount, AnswerMerge) are not observed, only its entry and return; TLC searches the "
+        "interleavings of the unobserved steps (TInternal) that explain the logged order",
     ]
 
 
